@@ -56,7 +56,11 @@ def _digest(obj):
 
 
 def _assert_repo(ctx):
+    import logging
+
     import signac
+
+    logging.disable(logging.CRITICAL)  # signac logs expected errors of the fault universes
 
     root = os.path.realpath(ctx.repo)
     f = os.path.realpath(signac.__file__)
